@@ -232,10 +232,11 @@ package geometry
 
 //@ spec func le32(d []byte, o int) int { d[o] + 256*d[o+1] + 65536*d[o+2] + 16777216*d[o+3] }
 // well-formedness of the compressed indexes (defined further below)
-//@ spec func indexBytesOK(s *baseSeries, d []byte) bool {
+// (a function of VALUES, not of the heap: after a frame step `s.points == old(s.points)` etc. the invariant carries over by congruence)
+//@ spec func indexBytesOK(pts []Point, cl bool, r Rect, d []byte) bool {
 //@     len(d) >= 5 && 5 <= le32(d,1) && le32(d,1) <= len(d) && (d[0] == 1 || d[0] == 2) &&
-//@     (d[0] == 1 ==> RWFtop(slice(d, 0, le32(d,1)), s.points, s.closed)) && (d[0] == 2 ==> QWFtop(slice(d, 0, le32(d,1)), s.points, s.closed, s.rect)) }
-//@ spec func IndexInv(s *baseSeries) bool { s.index == nil || (isBytes(s.index) && indexBytesOK(s, unboxBytes(s.index))) }
+//@     (d[0] == 1 ==> RWFtop(slice(d, 0, le32(d,1)), pts, cl)) && (d[0] == 2 ==> QWFtop(slice(d, 0, le32(d,1)), pts, cl, r)) }
+//@ spec func IndexInv(s *baseSeries) bool { s.index == nil || (isBytes(s.index) && indexBytesOK(s.points, s.closed, s.rect, unboxBytes(s.index))) }
 
 //@ func baseSeries.Search
 //@   props C04 C01
@@ -1120,7 +1121,7 @@ package geometry
 // exact-domain facts. Chosen automatically for callers whose arithmetic mode is `order`.
 
 //@ spec func LineShape(l *Line) bool { l != nil && dyn(l.baseSeries) == typeid(*baseSeries) && SeriesInv(l.baseSeries) }
-//@ spec func RingShape(s Series) bool { SeriesInv(s) && sClosed(s) && isBS(s) }
+//@ spec func RingShape(s Series) bool opaque { SeriesInv(s) && sClosed(s) && isBS(s) }
 //@ spec func PolyShape(P *Poly) bool opaque {
 //@     P != nil && polyExt(P) != nil && RingShape(polyExt(P)) &&
 //@     (forall h int :: 0 <= h && h < polyNHoles(P) ==> polyHole(P,h) != nil && RingShape(polyHole(P,h))) }
